@@ -4,7 +4,7 @@ import numpy as np
 from harness import common as C
 from harness import zoo as Z
 
-ANCHORS = ["T7unseen", "T4", "T7mic"]
+ANCHORS = ["T7unseen", "T4", "T7mic", "T5rot"]
 MODELS = ["Mic", "MicCase", "CrossCase"]
 RULE = ("fitted transform-capable models (EOF, ComplexEOF, SparsePCA, POP, their rotators, CPCCA family, their rotators, multi.CCA) x new data with "
         "1..N samples, sample coordinates disjoint from / overlapping / equal to the training ones, one or two sample dimensions, a sample "
@@ -103,6 +103,15 @@ def run_single(ctx, rng, N):
                 check_transform(ctx, "C05:%sRotator" % name, "%sRotator(power=%d)/%s" % (name, power, mode), lambda d: rot.transform(d), new, "time", replay)
                 check_transform(ctx, "C05:%sRotator:normalized" % name, "%sRotator(power=%d)/%s/normalized" % (name, power, mode),
                                 lambda d: rot.transform(d, normalized=True), new, "time", replay)
+                # a subset of the training samples through the ROTATED model: the rotated scores at those samples
+                try:
+                    ts = rot.transform(sub)
+                    sc = rot.scores().sel(time=sub.time)
+                    if not Z.same(ts.transpose(*sc.dims).values, sc.values, 1e-6):
+                        ctx.violation("C05:%sRotator:subset" % name, "%sRotator(power=%d): transform(subset of training samples) != subset of the rotated scores" % (name, power),
+                                      dict(replay, power=power, sub_idx=idx))
+                except Exception as e:
+                    ctx.violation("C05:%sRotator:subset-error:%s" % (name, C.errkind(e)), "%sRotator(power=%d): transform of a training subset raised %r" % (name, power, e), replay)
 
 
 def run_structured(ctx, rng, N):
